@@ -56,6 +56,7 @@ def namesNow (v : View) (loc : List Out) (nk : Name) : List Name :=
 /-- `append_name(names[nk], okey, key)`: append unless seen; a duplicate is an error unless the
     canonical name starts with `u` or `μ` (work-around for unyt issue 145) -/
 def appendName (v : View) (loc : List Out) (nk okey key : Name) : Except (Name × Name) (List Out) :=
+  Name.force nk fun nk => Name.force okey fun okey => Name.force key fun key =>
   if seenNow v loc key then
     (if Nat.beq (Name.head okey) cpU || Nat.beq (Name.head okey) cpMu then .ok loc else .error (key, okey))
   else .ok (⟨nk, okey, key⟩ :: loc)
@@ -75,20 +76,20 @@ def aliasPrefixLoop (ct : CaseTable) (v : View) (key a : Name) :
     List (Name × Name) → List Out → Except (Name × Name) (List Out)
   | [], loc => .ok loc
   | (up, word) :: r, loc =>
-    let nk := Name.append up key
+    Name.force (Name.append up key) fun nk =>
     -- if len(a) < 4: append_name(names[up + key], up + key, up + a)
     let s1 := if Name.len a < 4 then appendName v loc nk nk (Name.append up a) else .ok loc
     match s1 with
     | .error e => .error e
     | .ok loc1 =>
-      let alt := Name.append word a
+      Name.force (Name.append word a) fun alt =>
       -- if alt not in seen: append_name(names[up + key], up + key, alt)
       let s2 := if seenNow v loc1 alt then .ok loc1 else appendName v loc1 nk nk alt
       match s2 with
       | .error e => .error e
       | .ok loc2 =>
         -- if alt.title() not in names[up + key]: append_name(names[up + key], up + key, alt.title())
-        let t := Name.title ct alt
+        Name.force (Name.title ct alt) fun t =>
         let s3 := if memN t (namesNow v loc2 nk) then .ok loc2 else appendName v loc2 nk nk t
         match s3 with
         | .error e => .error e
@@ -113,7 +114,7 @@ def aliasesPlain (ct : CaseTable) (v : View) (key : Name) :
     | .ok loc1 =>
       if !(Name.isLower ct alt) || Name.len alt < 4 then aliasesPlain ct v key r loc1
       else
-        let t := Name.title ct alt
+        Name.force (Name.title ct alt) fun t =>
         let s := if memN t (namesNow v loc1 key) then .ok loc1 else appendName v loc1 key key t
         match s with
         | .error e => .error e
@@ -129,7 +130,7 @@ def genKey (inp : Inputs) (v : View) (key : Name) (prefixable : Bool) : Except (
       if prefixable then prefixLoop v key inp.prefixes loc0
       else
         -- elif len(key) > 3 and key.title() != key: if all(len(k) > 3 for k in key.split("_")): …
-        let t := Name.title inp.ct key
+        Name.force (Name.title inp.ct key) fun t =>
         if Name.len key > 3 && !(Nat.beq t key)
             && (Py.splitUnderscore (Name.chars key)).all (fun w => w.length > 3)
         then appendName v loc0 key key t else .ok loc0
